@@ -241,6 +241,24 @@ func main() {
 					_ = total
 					r.Bound(fmt.Sprintf("alphabet_of_%d_bytes", len(st.alpha)), fmt.Sprintf("all strings up to length %d", st.n))
 				}
+				// long words: buffer growth in the pooled buffer, the scanner's read buffer
+				var nlong int64
+				for _, unit := range []string{"a", "'", " ", "$", "\x80", "ab'", "' ", "\\'", "x y"} {
+					for _, n := range []int{100, 1365, 4095, 4096, 4097, 10000} {
+						w := strings.Repeat(unit, n/len(unit)+1)[:n]
+						if f := checkWord(w); f != nil {
+							f.Msg = fmt.Sprintf("long word (%d bytes of %q): %.200s", n, unit, f.Msg)
+							r.Violation(mc.Case{Harness: "words", Trace: mc.J(wcase{mc.BStr(w)}), Msg: f.Msg})
+						}
+						if f := checkList([]string{w, "", w[:n/2]}); f != nil {
+							f.Msg = fmt.Sprintf("list with long words (%d bytes of %q): %.200s", n, unit, f.Msg)
+							r.Violation(mc.Case{Harness: "lists", Trace: mc.J(listCase([]string{w, "", w[:n/2]})), Msg: f.Msg})
+						}
+						nlong += 2
+					}
+				}
+				r.Count("long_words", nlong)
+				evals += nlong
 				r.AddEval(evals, evals, evals, needq)
 				r.Rule("Quote on every string over (a) all 256 byte values, (b) the POSIX must-quote and may-need-quoting lists plus further suspect bytes, (c) the classes the code distinguishes; Split(Quote(s)) = [s]; an independent scanner proves no listed byte is left unquoted and that a POSIX shell reads back s; non-trivial = strings containing a listed byte")
 				r.Sample(wcase{"it's a $test"})
